@@ -14,7 +14,7 @@ EXPLANATION = (
 )
 BOUNDS = {
     "quick": "(1) each optional rule off on js-default: its construct scaffold with 1-2 free characters; zero preset and html=False on FREE(2)+newline; "
-             "(2) FREE(3)+newline and a paragraph scaffold, trigger characters excluded; (3) 6 reference scaffolds with 1 free character; "
+             "(2) FREE(2)+newline and three scaffolds, trigger characters excluded; (3) 6 reference scaffolds with 1 free character; "
              "(4) symbolic option index (9 options) x symbolic value x 3 routes",
     "thorough": "(1) FREE(3) per disabled rule + scaffolds with 2 free characters on both presets; (2) FREE(4); (3) 2 free characters",
 }
@@ -283,12 +283,12 @@ def jobs(tier, seed):
                                                     "scaffold": ["<div", {"v": "a"}, ">\n", {"v": "b"}, "\n"], "spec": spec, "name": "html-off-block"},
                  "weight": 4, "cpu_cap": 900, "wall_cap": 1500})
     # (2) conservative extensions
-    kx = 3 if tier == "quick" else 4
+    kx = 2 if tier == "quick" else 3
     _sharded(jobs, "extension", {"cfg": CM, "cfg_on": dict(CM, enable=["table"]), "ext": "table", "trigger": "|",
                                  "scaffold": free_doc(kx, "\n"), "name": "ext-table"}, weight=10, spec=spec)
     _sharded(jobs, "extension", {"cfg": CM, "cfg_on": dict(CM, enable=["strikethrough"]), "ext": "strikethrough", "trigger": "~~",
-                                 "scaffold": free_doc(kx - 1, "\n"), "name": "ext-strike"}, weight=10, spec=spec)
-    for sc in (["a\n", {"v": "a"}, {"v": "b"}, "\nc\n"], ["~", {"v": "a"}, "~ x ~", {"v": "b"}, "~\n"], ["- a\n  ", {"v": "a"}, {"v": "b"}, "\n"]):
+                                 "scaffold": free_doc(kx, "\n"), "name": "ext-strike"}, weight=10, spec=spec)
+    for sc in (["a\n", {"v": "a"}, "-\nc\n"], ["~", {"v": "a"}, "~ x ~", {"v": "b"}, "~\n"], ["- a\n  ", {"v": "a"}, "-\n"]):
         jobs.append({"harness": "extension", "params": {"cfg": CM, "cfg_on": dict(CM, enable=["table", "strikethrough"]), "ext": "both",
                                                          "trigger": "|", "scaffold": sc, "spec": spec, "name": "ext-ctx"},
                      "weight": 4, "cpu_cap": 900, "wall_cap": 1500})
